@@ -245,6 +245,9 @@ def jobs(tier, seed):
                   reach=["C10.files.selected==union-of-addressed-entities"], min_paths=20, cost=500, validate=40, closure=False))
     js.append(Job("files.two-files.interleaved", "props.c10:h_files", {"docs": ["rule", "outline"], "pattern": [0, 0, 1], "small_lines": True},
                   reach=["C10.files.selected==union-of-addressed-entities"], min_paths=50, cost=2000, validate=40, closure=False))
+    # the same file named again after another one: each mention keeps its own selection
+    js.append(Job("files.two-files.apart", "props.c10:h_files", {"docs": ["rule", "plain"], "pattern": [0, 1, 0], "small_lines": True},
+                  reach=["C10.files.selected==union-of-addressed-entities"], min_paths=50, cost=2000, validate=40, closure=False))
     js.append(Job("files.listfile", "props.c10:h_files", {"docs": ["rule", "plain"], "pattern": [0, 1, 1], "small_lines": True, "listfile": True},
                   reach=["C10.files.selected==union-of-addressed-entities"], min_paths=50, cost=2000, validate=40, closure=False))
     if tier == "thorough":
